@@ -204,10 +204,9 @@ func genEvent(r *vh.Rng, st int, started bool, storedID string, payCounter *int,
 	if coop && p >= 52 && r.Chance(80) {
 		p = r.Intn(52)
 	}
-	// environment assumptions (see coq/theories/ConnEvents.v): the websocket layer delivers
-	// nothing once the transport is closed; SPINE writes need the writer handed out at setup
-	if wclosed && (p < 70 || p >= 97) {
-		p = 70 + r.Intn(27)
+	// environment assumption (see coq/theories/ConnEvents.v): SPINE writes need the writer handed out at setup
+	if wclosed && (p < 70 || p >= 97) && r.Chance(70) {
+		p = 70 + r.Intn(27) // mostly other events once the transport is closed; deliveries after it stay possible
 	}
 	if !readerSet && p >= 89 && p < 93 {
 		p = 70 + r.Intn(19)
